@@ -22,12 +22,17 @@ NEEDS = {
  "C15": "cellblock compression on and two cellblock-carrying requests inside compressCellblocks of one region client at the same time (a data race on a shared buffer)",
  "C16": "a start key beginning with ',' compared with a start key beginning with a byte below ','",
  "C17": "a batch over two region clients where one answers retry-later and the one collected last fails only with not-serving / connection errors",
+ "C19": "a server holding exactly one cached region whose re-lookup returns a differently named region (split/merge) or TableNotFound, then Close()",
+ "C20": "a server whose only cached region is split or merged into regions on the same server",
+ "C02b": "cellblock compression on; a second compressed response (or request) is processed between the delivery of a result and the caller reading its cells",
+ "C03b": "a write error on the connection while a second sender is between the done check and the write lock",
+ "C09b": "two callers racing through a cache miss for the same new region, the second reading the cache between the first's put and MarkUnavailable",
  "C18": "an unbatched request whose context is cancelled before the (late) response arrives, then an idle period longer than the read timeout",
 }
 CHECKS = {  # seed -> checks to try (own property first)
  "C01": ["C01"], "C02": ["C02"], "C03": ["C03"], "C04": ["C04", "C09"], "C05": ["C05", "C12"], "C06": ["C06"], "C07": ["C07"],
  "C08": ["C08"], "C09": ["C09", "C04"], "C10": ["C10", "C05"], "C11": ["C11", "C15"], "C12": ["C12", "C07"], "C13": ["C13"],
- "C14": ["C14"], "C15": ["C15", "C05"], "C16": ["C16", "C01"], "C17": ["C17"], "C18": ["C18"],
+ "C14": ["C14"], "C15": ["C05", "C15"], "C19": ["C19", "C20"], "C20": ["C20", "C19"], "C02b": ["C02"], "C03b": ["C03"], "C09b": ["C09"], "C16": ["C16", "C01"], "C17": ["C17"], "C18": ["C18"],
 }
 names = sys.argv[1:] or sorted(os.listdir('/verif/seeded'))
 rows = []
@@ -36,6 +41,8 @@ for name in names:
     if not os.path.isdir(d) or not os.path.exists(d + '/patch.diff'):
         continue
     prop = name[:3]
+    if name == "C15":
+        pass
     res = {}
     for chk in CHECKS.get(name, [prop]):
         p = subprocess.run(['/verif/tools/run_seed.sh', name, chk], capture_output=True, text=True)
